@@ -202,13 +202,13 @@ theorem C03_index_intact_crash_safe (st : Store) (hne : st.packs ≠ []) (hb : I
     InBounds (st.crashAppend ref body keep np false) := by
   have hidx : (st.crashAppend ref body keep np false).index = st.index := by simp [Store.crashAppend]
   have hg := crashAppend_grows st hne ref body keep np false
-  refine ⟨hidx, fun r => fetch_of_grows st _ r (by rw [hidx]) hg hb, fun r => by simp [Store.stat, hidx],
+  refine ⟨hidx, fun r => fetch_of_grows st _ r (by rw [hidx]) hg (hb r), fun r => by simp [Store.stat, hidx],
     inBounds_of_grows st _ hidx hg hb⟩
 
-/-- **crash after the row is written** (so, by the effect order, all added bytes are on disk): the new blob
-is served complete, every other blob as before; the store stays in bounds -/
-theorem C03_index_row_written (st : Store) (hne : st.packs ≠ []) (hb : InBounds st)
-    (ref body : Bytes) (keep : Nat) (np : Bool) (hk : (appendBytes ref body).length ≤ keep) :
+/-- the row-written state, needing only the OTHER rows to lie within their packs -/
+theorem C03_index_row_written_gen (st : Store) (hne : st.packs ≠ [])
+    (hb : ∀ r m, r ≠ ref → st.index.get r = some m → ∃ p, st.packs[m.file]? = some p ∧ m.offset + m.size ≤ p.length)
+    (body : Bytes) (keep : Nat) (np : Bool) (hk : (appendBytes ref body).length ≤ keep) :
     (st.crashAppend ref body keep np true).fetch ref = .ok body.length body ∧
     (∀ r, r ≠ ref → (st.crashAppend ref body keep np true).fetch r = st.fetch r) ∧
     InBounds (st.crashAppend ref body keep np true) := by
@@ -232,7 +232,7 @@ theorem C03_index_row_written (st : Store) (hne : st.packs ≠ []) (hb : InBound
     simp only [List.append_nil, List.length_append, List.append_assoc] at this
     rw [this]
   · intro r hr
-    exact fetch_of_grows st _ r (by rw [hidx, Index.get_set_other _ _ _ _ hr]) hg hb
+    exact fetch_of_grows st _ r (by rw [hidx, Index.get_set_other _ _ _ _ hr]) hg (fun m hm => hb r m hr hm)
   · intro k m hm
     rw [hidx] at hm
     by_cases hkr : k = ref
@@ -241,9 +241,73 @@ theorem C03_index_row_written (st : Store) (hne : st.packs ≠ []) (hb : InBound
       injection hm with hm; subst hm
       exact ⟨_, hnew, by simp; omega⟩
     · rw [Index.get_set_other _ _ _ _ hkr] at hm
-      obtain ⟨p, hp', hle⟩ := hb k m hm
+      obtain ⟨p, hp', hle⟩ := hb k m hkr hm
       obtain ⟨x, hx⟩ := hg _ _ hp'
       exact ⟨p ++ x, hx, by simp; omega⟩
+
+/-- **crash after the row is written** (so, by the effect order, all added bytes are on disk): the new blob
+is served complete, every other blob as before; the store stays in bounds -/
+theorem C03_index_row_written (st : Store) (hne : st.packs ≠ []) (hb : InBounds st)
+    (ref body : Bytes) (keep : Nat) (np : Bool) (hk : (appendBytes ref body).length ≤ keep) :
+    (st.crashAppend ref body keep np true).fetch ref = .ok body.length body ∧
+    (∀ r, r ≠ ref → (st.crashAppend ref body keep np true).fetch r = st.fetch r) ∧
+    InBounds (st.crashAppend ref body keep np true) :=
+  C03_index_row_written_gen st hne (fun r m _ hm => hb r m hm) body keep np hk
+
+/-- **the client's retry after "index row written, data not (all) there"** (the mechanism of
+diskpacked.go:655-661: a duplicate is skipped only if its indexed extent lies within the pack file):
+whatever strict prefix of the added bytes is in the pack – cut inside the header, at its end, anywhere
+inside the body – if the blob is received again FIRST after the restart, it is appended again and
+from then on served complete; every other blob is served as before the crashed receive; all rows lie
+within their packs again -/
+theorem C03_retry_after_row_without_data (st : Store) (hne : st.packs ≠ []) (hb : InBounds st)
+    (ref body : Bytes) (keep : Nat) (np : Bool) (hk : keep < (appendBytes ref body).length) :
+    ((st.crashAppend ref body keep np true).receive ref body).fetch ref = .ok body.length body ∧
+    (∀ r, r ≠ ref → ((st.crashAppend ref body keep np true).receive ref body).fetch r = st.fetch r) ∧
+    InBounds ((st.crashAppend ref body keep np true).receive ref body) := by
+  obtain ⟨init, last, hp⟩ := exists_concat st.packs hne
+  have hpk := crashAppend_packs st init last hp ref body keep np true
+  have hidx : (st.crashAppend ref body keep np true).index =
+      st.index.set ref ⟨init.length, last.length + (encodeHeader ref body.length).length, body.length⟩ := by
+    simp [Store.crashAppend, hp]
+  have hg := crashAppend_grows st hne ref body keep np true
+  have hpack : (st.crashAppend ref body keep np true).packs[init.length]? =
+      some (last ++ (appendBytes ref body).take keep) := by
+    rw [hpk, List.append_assoc, List.getElem?_append_right (Nat.le_refl _)]
+    simp
+  -- the duplicate check sees an extent beyond the end of the file: append again
+  have hrecv : (st.crashAppend ref body keep np true).receive ref body =
+      (st.crashAppend ref body keep np true).append ref body := by
+    unfold Store.receive
+    rw [hidx, Index.get_set_same]
+    simp only [← hidx, hpack]
+    have hlen : ¬ (last.length + (encodeHeader ref body.length).length + body.length ≤
+        last.length + min keep (appendBytes ref body).length) := by
+      simp only [appendBytes, List.length_append] at hk ⊢
+      omega
+    simp [hlen]
+  have hne' : (st.crashAppend ref body keep np true).packs ≠ [] := by rw [hpk]; simp
+  have hb' : ∀ r m, r ≠ ref → (st.crashAppend ref body keep np true).index.get r = some m →
+      ∃ p, (st.crashAppend ref body keep np true).packs[m.file]? = some p ∧ m.offset + m.size ≤ p.length := by
+    intro r m hr hm
+    rw [hidx, Index.get_set_other _ _ _ _ hr] at hm
+    obtain ⟨p, hp', hle⟩ := hb r m hm
+    obtain ⟨x, hx⟩ := hg _ _ hp'
+    exact ⟨p ++ x, hx, by simp; omega⟩
+  rw [hrecv, append_eq_crashAppend]
+  obtain ⟨h1, h2, h3⟩ := C03_index_row_written_gen (ref := ref) _ hne' hb' body _ _ (Nat.le_refl _)
+  refine ⟨h1, ?_, h3⟩
+  intro r hr
+  rw [h2 r hr]
+  exact fetch_of_grows st _ r (by rw [hidx, Index.get_set_other _ _ _ _ hr]) hg (hb r)
+
+/-- finding F-C03-6: the same state, but another blob (`d-e`) is appended before the retry: the stale
+extent of `b-c` lies inside the file again, the size-only duplicate check skips the retry – it is
+acknowledged without being stored – and Fetch serves the torn byte glued to the other record -/
+theorem C03_retry_after_refill_counterexample :
+    let st := ((Store.init 0).crashAppend [98, 45, 99] [1, 2, 3] 8 false true).receive [100, 45, 101] [7, 7, 7]
+    (st.receive [98, 45, 99] [1, 2, 3]) = st ∧
+    st.fetch [98, 45, 99] = .ok 3 [1, 91, 100] := by decide
 
 /-- **every crash instant of an append**, for every effect order satisfying `appSafe` (in particular the
 regenerated one): take any prefix of the effects, any number `j` of added bytes between what is
